@@ -197,8 +197,8 @@ harness("mini_begin_at_128", props=["C15", "C02", "C03"], tier="quick", timeout=
         what="begin_mini_chain when the cached MiniFAT holds exactly 128 entries (one v3 MiniFAT sector's worth) while the MiniFAT chain already has two sectors (trailing mini sectors were released earlier): the chain and the header count stay at two, the new cell is written through into the second MiniFAT sector, the file grows only by the mini stream's one sector",
         bounds="one layout: 20-sector v3 image, 128 one-sector mini chains", functions=MINI_F, assumes=[A_SHAPE, A_IOCOPY])
 harness("dir_validate_total", props=["C05", "C16", "C04"], tier="quick", timeout=3600, mem=12, stubs=[FMT, STUB_UP],
-        what="Directory::validate on a 4-entry directory whose left/right/child links are ANY u32 and whose colours and non-root types are arbitrary: never panics, terminates; permissive acceptance == (reachable links in range, a tree, storages/streams only, locally ordered); strict == permissive and no two adjacent reds; lookups on every accepted directory terminate and return only the named reachable slot",
-        bounds="4 directory entries, names a < b < c concrete; all link values symbolic", functions=["Directory::validate", "Directory::stream_id_for_name_chain", "path::compare_names"], assumes=[A_UPTABLE, "stream entries carry no child (DirEntry::read_from rejects that in both modes: dirent_parse_stream_*)"])
+        what="Directory::validate on a 3-entry directory (root + a, b) whose left/right/child links are ANY u32 and whose colours and non-root types are arbitrary: never panics, terminates; permissive acceptance == (reachable links in range, a tree, storages/streams only, locally ordered); strict == permissive and no two adjacent reds; lookups on every accepted directory terminate and return only the named reachable slot",
+        bounds="3 directory entries, names a < b concrete; all link values (any u32), colours and types symbolic", functions=["Directory::validate", "Directory::stream_id_for_name_chain", "path::compare_names"], assumes=[A_UPTABLE, "stream entries carry no child (DirEntry::read_from rejects that in both modes: dirent_parse_stream_*)"])
 # ---------------------------------------------------------------- C13/C02/C17: fault inside a directory entry update (h_dfault.rs)
 for (_n, _t) in [("at0", "quick"), ("at1", "thorough"), ("at2", "thorough"), ("at3", "quick"), ("at9", "thorough"), ("at20", "thorough")]:
     harness("c13_dirent_fault_" + _n, props=["C13", "C02", "C17"], tier=_t, timeout=1800, mem=8, stubs=[FMT],
